@@ -446,7 +446,7 @@ class ConfigParser(object):
         if len(cp[override.section]) == 0:
           cp.remove_section(override.section)
       else:
-        cp[override.section][override.key] = override.value
+        self._set_value(cp, override)
 
     # Add additional values
     for override in additional:
@@ -458,7 +458,7 @@ class ConfigParser(object):
       # ([Variables] is the parser's default section: it always exists and cannot be added)
       if override.section != cp.default_section and not cp.has_section(override.section):
         cp.add_section(override.section)
-      cp[override.section][override.key] = override.value
+      self._set_value(cp, override)
 
     # Resolve every ${...} placeholder once now, so that an unresolvable or malformed placeholder
     # is reported as a configuration error rather than escaping later when the value is first used.
@@ -470,6 +470,20 @@ class ConfigParser(object):
       raise ConfigParserException("Could not resolve placeholder: {}".format(e.message))
 
     return cp
+
+  @staticmethod
+  def _set_value(cp, override):
+    """Store the value of an override / additional item the way the INI reader stores a value read from the file:
+    without the blanks around it; a value the reader would refuse (a '$' that does not start a placeholder) is a configuration error."""
+    value = override.value
+    if hasattr(value, "strip"):
+      value = value.strip()
+    try:
+      cp[override.section][override.key] = value
+    except (ValueError, TypeError) as e:
+      raise ConfigOverrideException(
+        "Entry [{section}]: '{key}' cannot be given the value '{value}': {msg}".format(
+        section = override.section, key = override.key, value = override.value, msg = e))
 
   def _check_for_duplicates(self):
     self._check_for_duplicate_pairs()
